@@ -641,8 +641,38 @@ def run(F, R, ctx):
     whole_use_rule(F, R)
     unintroduce_rule(F, R)
     ellipsis_count_rule(F, R)
+    module_qualification_rule(F, R)
     R.note("C13: decided are pattern/form alignment, walker agreement, the binder-site treatment of the renamer, the "
            "construction order of a macro case, clean binding tables, scope-layer pairing and traversal completeness of the "
            "template walkers. NOT decided: hygiene proper — which binding each identifier of an expansion resolves to. The "
            "implementation renames with a textual `##` prefix; two macros introducing the same spelling, or a user "
            "identifier spelled like a renamed one, can still capture each other (DESIGN §5).")
+
+
+def module_qualification_rule(F, R):
+    R.rule("C13.q", "every macro of a module is module-qualified before macros of that module are handed to a requirer: wherever a "
+                    "function of the compiler marks a macro as mangled (SteelMacro::mark_mangled) in a loop, the loop runs over "
+                    "the macro table itself (its iterator yields the table's SteelMacro entries) — not over a list of names "
+                    "looked up in the table. The second expansion round of a requirer uses the module's whole macro table, "
+                    "private macros included; a private macro left unqualified resolves its free identifiers at the use site")
+    MAC_IT = re.compile(r"(Iter|IterMut|Values|ValuesMut|IntoIter|IntoValues)<[^>]*\bSteelMacro\b")
+    n = 0
+    for name, fn in sorted(F.fns.items()):
+        if not name.startswith("steel::compiler::") and not name.startswith("steel::steel_vm::"):
+            continue
+        for k, m in enumerate(fn.call_blocks(r"\{impl SteelMacro\}::mark_mangled$")):
+            after = fn.reachable_from(fn.succ(m))
+            if m not in after:
+                continue            # not in a loop: a single macro, nothing to cover
+            n += 1
+            heads = [(i, b) for i, b in fn.calls() if re.search(r"::next$", b["callee"]) and i in after and
+                     m in fn.reachable_from(fn.succ(i))]
+            over_table = [i for i, b in heads if any(MAC_IT.search(t) for t in (b.get("targs") or []))]
+            R.inst("C13.q", "%s / mangling loop #%d runs over the macro table" % (fn.short(), k), bool(over_table),
+                   "%s marks macros as module-qualified (line %s) in a loop that does not iterate the macro table itself (loop "
+                   "iterators: %s): macros the loop's source does not name — a module's private macros — keep unqualified templates, "
+                   "and an exported macro that expands into one calls the requirer's binding of the same spelling instead of the "
+                   "module's" % (fn.short(), fn.blocks[m].get("line"),
+                                 ", ".join(sorted({(b.get("targs") or ["?"])[0] for _, b in heads})) or "none"),
+                   fn.loc(fn.blocks[m].get("line")), sample=True)
+    R.floor("C13.q", "mangling loops", n, 2)
